@@ -52,7 +52,8 @@ let err_name (e : err) : string =
 (* ---- payload bytes, hash ---- *)
 let s_list = [0;1;2;3;4;7;8;9;15;16;17;24;31;32;33;48;63;64;65;100;127;128;129;255;256;257;511;512;
               1000;1023;1024;1025;2047;2048;4095;4096;
-              2016;2024;2032;2040;4064;4072;4080;4088]
+              2016;2024;2032;2040;4064;4072;4080;4088;
+              1920;1984;3968;4032]
 let a_list = [1;2;4;8;16;32;64;128]
 let rnd s a = (s + a - 1) / a * a
 
